@@ -1,15 +1,16 @@
-# Fail-closed translator from the SOURCE of afkak's request encoders (afkak/kafkacodec.py: KafkaCodec.encode_* and
-# _encode_message_header) to terms of the encoder language coq/Model/EncDSL.v.  Translator tie of property C04
-# (DESIGN.md 10.2b): on every run the source under VERIF_REPO is translated again and Coq checks that the terms are
-# the committed ones (coq/Model/EncAst.v), for which coq/Proofs/EncDSLSound.v proves `run ast_X args = encode_X args`
-# (the hand-written model of Model/Requests.v, the subject of the C04 theorems).
+# Fail-closed translator from the SOURCE of afkak's request encoders (afkak/kafkacodec.py: KafkaCodec.encode_*,
+# _encode_message_header, _encode_message_set, _encode_message) to terms of the encoder language coq/Model/EncDSL.v.
+# Translator tie of property C04 (DESIGN.md 10.2b): on every run the source under VERIF_REPO is translated again and
+# Coq checks that the terms are the committed ones (coq/Model/EncAst.v), for which coq/Proofs/EncDSLSound.v proves
+# `run(c) ast_X args = <model function X> args` (Model/Requests.v, Model/MsgSet.v: the subjects of the C04 theorems).
 #
-# What is understood (everything else raises Refused(construct): the tie is then "unavailable" for that encoder):
-#   parameters     cls/self is dropped; the others are LEVELS 0, 1, ... in order
+# What is understood (everything else raises Refused(construct): the tie is then "unavailable" for that function):
+#   parameters     cls/self is dropped; the others are LEVELS 0, 1, ... in order; every enclosing `for` / let adds levels
 #   guards         dropped (argument TYPES are outside the model):  `if not isinstance(x, T): raise ...`,
 #                  `assert isinstance(x, T)`, `assert x is not None`; the None-default idioms
 #                  `x = [] if x is None else x` / `if x is None: x = []`  (the model's argument is the list)
-#   pure locals    `name = <expr>` and `if a >= C: n1 = e1; ... else: n1 = e1'; ...` are substituted where used
+#   pure locals    `name = <expr>`; `if a >= C / a is None: n1 = e1; .. [else: ..]` whose branches only assign pure
+#                  locals (parameters may be re-bound) are substituted where used
 #   expressions    parameters, int constants, KafkaCodec.NAME / cls.NAME (class-level int constants), x.attr, len(x),
 #                  group_by_topic_and_partition(x)
 #   accumulator    ONE local collects the bytes:  m = <bytes>; m += <bytes>   or   m = [<bytes>, ..]; m.append(<bytes>);
@@ -18,8 +19,14 @@
 #                  struct.pack(">f%sf" % len(x), len(x), *x), write_short_ascii/text/bytes(e), write_int_string(e),
 #                  a bytes parameter, `a + b`, b"".join([..]); a local holding such a value (`header = cls._encode_..`)
 #                  provided it is appended before anything computed after it (evaluation order = append order)
-#   message sets   x = KafkaCodec._encode_message_set(<msgs>, magic=<e>)  binds the rest of the block (ILetMsgSet)
-#   loops          for x in <list expr>;  for k, v in <dict expr>.items();  for k in <dict expr>  (body: the same forms)
+#   lets           x = KafkaCodec._encode_message_set(<msgs>, magic=<e>) / x = KafkaCodec._encode_message(<e>) /
+#                  x = int(time.time() * 1000): the REST of the block runs with x bound to a new level
+#   checksum       crc = zlib.crc32(ACC) & 0xFFFFFFFF; ACC = struct.pack('>I', crc) + ACC   (ACC started in this block)
+#   branches       if <e == INT | e is None | e is not None>: .. [elif ..] [else: ..] with arbitrary bodies: the rest of
+#                  the block is translated once per branch (ICond); `raise ProtocolError/UnsupportedCodecError(..)`;
+#                  a name assigned in the function but on no path to its first use is an UnboundLocalError (IRaise NameErr)
+#   loops          for x in <list expr>;  for k, v in <dict expr>.items();  for k in <dict expr>;  a loop whose body ends
+#                  with `v += <loop-invariant>` (v = v0 + iteration * step inside the body: IForIdx)
 # Adjacent struct.pack items are merged (struct.pack(">ab", x, y) == struct.pack(">a", x) + struct.pack(">b", y), also
 # in which inputs raise struct.error).
 import ast
@@ -28,9 +35,14 @@ import os
 FMT = {"b": "Fb", "B": "FB", "h": "Fh", "H": "FH", "i": "Fi", "I": "FI", "q": "Fq"}
 WRITERS = {"write_short_ascii": "ascii", "write_short_text": "text", "write_short_bytes": "sbytes",
            "write_int_string": "istring"}
+RAISES = {"ProtocolError": "Protocol", "UnsupportedCodecError": "Unsupported"}
 
 
 class Refused(Exception):
+    pass
+
+
+class UnboundUse(Exception):
     pass
 
 
@@ -55,6 +67,24 @@ def is_dict_annotation(ann):
     return txt.startswith("Dict[") or txt.startswith("dict")
 
 
+class St:
+    """translation state along ONE path through the function"""
+
+    def __init__(self):
+        self.env = {}            # name -> ("ex", expr, kind) | ("bytes", items)
+        self.level = 0
+        self.started = False     # the accumulator has been assigned
+        self.acc_out = None      # the item list in which the accumulator was started, and from which index
+        self.acc_idx = 0
+        self.pending = []        # bytes-valued locals computed but not yet appended, oldest first
+
+    def copy(self):
+        c = St()
+        c.env, c.level, c.started = dict(self.env), self.level, self.started
+        c.acc_out, c.acc_idx, c.pending = self.acc_out, self.acc_idx, list(self.pending)
+        return c
+
+
 class Encoder:
     def __init__(self, fn, consts, class_name):
         self.fn, self.consts, self.class_name = fn, consts, class_name
@@ -67,26 +97,37 @@ class Encoder:
             refuse(fn, "first parameter is not cls/self")
         self.self_name = names[0]
         self.params = names[1:]
-        self.env = {}           # name -> ("ex", expr, kind)
+        self.st0 = St()
         for i, a in enumerate(args.args[1:]):
-            self.env[a.arg] = ("ex", ("var", i), "dict" if is_dict_annotation(a.annotation) else "any")
-        self.level = len(self.params)
+            self.st0.env[a.arg] = ("ex", ("var", i), "dict" if is_dict_annotation(a.annotation) else "any")
+        self.st0.level = len(self.params)
         self.acc = None         # (name, "bytes" | "list"), decided by what the function returns
-        self.acc_started = False
-        self.pending = []       # bytes-valued locals computed but not yet appended, in order of computation
-        self.done = False
-        for st in fn.body:
-            if isinstance(st, ast.Return) and st.value is not None:
-                v = st.value
+        self.assigned = set()
+        for n in ast.walk(fn):
+            if isinstance(n, ast.Return) and n.value is not None:
+                v = n.value
+                acc = None
                 if isinstance(v, ast.Name) and v.id not in self.params:
-                    self.acc = (v.id, "bytes")
+                    acc = (v.id, "bytes")
                 elif isinstance(v, ast.Call) and isinstance(v.func, ast.Attribute) and v.func.attr == "join" \
                         and isinstance(v.func.value, ast.Constant) and v.func.value.value == b"" and len(v.args) == 1 \
                         and isinstance(v.args[0], ast.Name):
-                    self.acc = (v.args[0].id, "list")
+                    acc = (v.args[0].id, "list")
+                elif self.crc_return(v) is not None:
+                    acc = (self.crc_return(v)[1], "bytes")
+                if acc is not None:
+                    if self.acc not in (None, acc):
+                        refuse(n, "two different names are returned")
+                    self.acc = acc
+            if isinstance(n, (ast.Assign, ast.AugAssign, ast.For)):
+                tg = n.targets if isinstance(n, ast.Assign) else [n.target]
+                for t in tg:
+                    for m in ast.walk(t):
+                        if isinstance(m, ast.Name):
+                            self.assigned.add(m.id)
 
     # ---------------------------------------------------------------- pure expressions
-    def pure(self, e):
+    def pure(self, e, st):
         """-> (expr, kind); kind: 'dict' for something iterated with .items()/keys, else 'any'"""
         if isinstance(e, ast.Constant) and isinstance(e.value, int) and not isinstance(e.value, bool):
             return ("const", e.value), "any"
@@ -94,66 +135,83 @@ class Encoder:
                 and isinstance(e.operand.value, int):
             return ("const", -e.operand.value), "any"
         if isinstance(e, ast.Name):
-            b = self.env.get(e.id)
+            b = st.env.get(e.id)
+            if b is None and e.id in self.assigned:
+                raise UnboundUse(e.id)
             if b is None or b[0] != "ex":
                 refuse(e, "name %r is not a parameter or a pure local" % e.id)
             return b[1], b[2]
         if isinstance(e, ast.Attribute):
-            if isinstance(e.value, ast.Name) and e.value.id in (self.class_name, self.self_name) and e.value.id not in self.env:
+            if isinstance(e.value, ast.Name) and e.value.id in (self.class_name, self.self_name) and e.value.id not in st.env:
                 if e.attr not in self.consts:
                     refuse(e, "unknown class constant %s" % e.attr)
                 return ("const", self.consts[e.attr]), "any"
-            base, _k = self.pure(e.value)
+            base, _k = self.pure(e.value, st)
             return ("field", base, e.attr), "any"
         if isinstance(e, ast.Call) and isinstance(e.func, ast.Name) and not e.keywords:
             if e.func.id == "len" and len(e.args) == 1:
-                return ("len", self.pure(e.args[0])[0]), "any"
+                return ("len", self.pure(e.args[0], st)[0]), "any"
             if e.func.id == "group_by_topic_and_partition" and len(e.args) == 1:
-                return ("group", self.pure(e.args[0])[0]), "dict"
+                return ("group", self.pure(e.args[0], st)[0]), "dict"
         refuse(e, "expression " + type(e).__name__)
 
+    def test(self, t, st):
+        """-> (cond, swapped)   cond = ("ceq", e, z) | ("cnone", e)"""
+        if isinstance(t, ast.Compare) and len(t.ops) == 1:
+            op, rhs = t.ops[0], t.comparators[0]
+            if isinstance(op, ast.Eq) and isinstance(rhs, ast.Constant) and isinstance(rhs.value, int) and not isinstance(rhs.value, bool):
+                return ("ceq", self.pure(t.left, st)[0], rhs.value), False
+            if isinstance(op, ast.Eq) and isinstance(rhs, ast.Name) and rhs.id in self.module_consts and rhs.id not in st.env:
+                return ("ceq", self.pure(t.left, st)[0], self.module_consts[rhs.id]), False
+            if isinstance(op, (ast.Is, ast.IsNot)) and isinstance(rhs, ast.Constant) and rhs.value is None:
+                return ("cnone", self.pure(t.left, st)[0]), isinstance(op, ast.IsNot)
+        refuse(t, "test " + ast.unparse(t)[:60])
+
+    module_consts = {}
+
     # ---------------------------------------------------------------- bytes-valued expressions -> items
-    def bytes_items(self, e):
+    def bytes_items(self, e, st):
         if isinstance(e, ast.BinOp) and isinstance(e.op, ast.Add):
-            return self.bytes_items(e.left) + self.bytes_items(e.right)
+            return self.bytes_items(e.left, st) + self.bytes_items(e.right, st)
         if isinstance(e, ast.Name):
-            b = self.env.get(e.id)
+            b = st.env.get(e.id)
+            if b is None and e.id in self.assigned:
+                raise UnboundUse(e.id)
             if b is not None and b[0] == "ex":
-                self.no_pending(e)
+                self.no_pending(e, st)
                 return [("raw", b[1])]
             if b is not None and b[0] == "bytes":
                 # a bytes local: it was COMPUTED where it was assigned; appending it here keeps the order of
                 # evaluation only if nothing else was computed in between
-                if not self.pending or self.pending[0] != e.id:
+                if not st.pending or st.pending[0] != e.id:
                     refuse(e, "bytes local %r is not the oldest value still to be appended" % e.id)
-                self.pending.pop(0)
-                del self.env[e.id]
+                st.pending.pop(0)
+                del st.env[e.id]
                 return b[1]
             refuse(e, "name %r used as bytes" % e.id)
         if isinstance(e, ast.Call):
             f = e.func
-            # b"".join([...])
             if isinstance(f, ast.Attribute) and f.attr == "join" and isinstance(f.value, ast.Constant) and f.value.value == b"" \
                     and len(e.args) == 1 and isinstance(e.args[0], (ast.List, ast.Tuple)) and not e.keywords:
                 out = []
                 for x in e.args[0].elts:
-                    out += self.bytes_items(x)
+                    out += self.bytes_items(x, st)
                 return out
             if isinstance(f, ast.Attribute) and f.attr == "_encode_message_header" and isinstance(f.value, ast.Name) \
                     and f.value.id in (self.self_name, self.class_name):
                 if len(e.args) not in (3, 4) or any(k.arg != "api_version" for k in e.keywords) or len(e.args) + len(e.keywords) > 4:
                     refuse(e, "header call shape")
-                self.no_pending(e)
-                xs = [self.pure(a)[0] for a in e.args]
-                ver = xs[3] if len(xs) == 4 else (self.pure(e.keywords[0].value)[0] if e.keywords else ("const", 0))
+                self.no_pending(e, st)
+                xs = [self.pure(a, st)[0] for a in e.args]
+                ver = xs[3] if len(xs) == 4 else (self.pure(e.keywords[0].value, st)[0] if e.keywords else ("const", 0))
                 return [("header", xs[0], xs[1], xs[2], ver)]
             if isinstance(f, ast.Attribute) and f.attr == "pack" and isinstance(f.value, ast.Name) and f.value.id == "struct" \
                     and not e.keywords and e.args:
-                self.no_pending(e)
-                return [self.pack(e)]
+                self.no_pending(e, st)
+                return [self.pack(e, st)]
             if isinstance(f, ast.Name) and f.id in WRITERS and len(e.args) == 1 and not e.keywords:
-                self.no_pending(e)
-                return [(WRITERS[f.id], self.pure(e.args[0])[0])]
+                self.no_pending(e, st)
+                return [(WRITERS[f.id], self.pure(e.args[0], st)[0])]
         refuse(e, "bytes expression " + type(e).__name__)
 
     def looks_like_bytes(self, v):
@@ -167,11 +225,11 @@ class Encoder:
                 return True
         return False
 
-    def no_pending(self, node):
-        if self.pending:
-            refuse(node, "bytes local %r computed earlier is appended later than a value computed after it" % self.pending[0])
+    def no_pending(self, node, st):
+        if st.pending:
+            refuse(node, "bytes local %r computed earlier is appended later than a value computed after it" % st.pending[0])
 
-    def pack(self, e):
+    def pack(self, e, st):
         fmt, args = e.args[0], e.args[1:]
         if isinstance(fmt, ast.Constant) and isinstance(fmt.value, str):
             s = fmt.value
@@ -179,20 +237,19 @@ class Encoder:
                 refuse(e, "struct format %r" % s)
             if any(isinstance(a, ast.Starred) for a in args):
                 refuse(e, "starred argument with a constant format")
-            return ("pack", [(FMT[c], self.pure(a)[0]) for c, a in zip(s[1:], args)])
-        # ">f%sf" % len(x), len(x), *x
+            return ("pack", [(FMT[c], self.pure(a, st)[0]) for c, a in zip(s[1:], args)])
         if isinstance(fmt, ast.BinOp) and isinstance(fmt.op, ast.Mod) and isinstance(fmt.left, ast.Constant) \
                 and isinstance(fmt.left.value, str) and len(args) == 2 and isinstance(args[1], ast.Starred):
             s = fmt.left.value
             if len(s) == 5 and s[0] == ">" and s[2:4] == "%s" and s[1] == s[4] and s[1] in FMT:
-                n1, _ = self.pure(fmt.right)
-                n2, _ = self.pure(args[0])
-                x, _ = self.pure(args[1].value)
+                n1, _ = self.pure(fmt.right, st)
+                n2, _ = self.pure(args[0], st)
+                x, _ = self.pure(args[1].value, st)
                 if n1 == ("len", x) and n2 == ("len", x):
                     return ("packstar", FMT[s[1]], x)
         refuse(e, "struct.pack with a computed format")
 
-    # ---------------------------------------------------------------- statements
+    # ---------------------------------------------------------------- statement classifiers
     def is_guard(self, st):
         def type_test(t):
             return isinstance(t, ast.Call) and isinstance(t.func, ast.Name) and t.func.id == "isinstance"
@@ -226,13 +283,97 @@ class Encoder:
                 return True
         return False
 
-    def branch_assigns(self, body):
-        out = {}
-        for st in body:
-            if not (isinstance(st, ast.Assign) and len(st.targets) == 1 and isinstance(st.targets[0], ast.Name)):
-                return None
-            out[st.targets[0].id] = st.value
-        return out
+    def class_call(self, v, attr):
+        return isinstance(v, ast.Call) and isinstance(v.func, ast.Attribute) and v.func.attr == attr \
+            and isinstance(v.func.value, ast.Name) and v.func.value.id in (self.class_name, self.self_name)
+
+    def is_now(self, v):
+        """int(time.time() * 1000)"""
+        if not (isinstance(v, ast.Call) and isinstance(v.func, ast.Name) and v.func.id == "int" and len(v.args) == 1 and not v.keywords):
+            return False
+        m = v.args[0]
+        if not (isinstance(m, ast.BinOp) and isinstance(m.op, ast.Mult) and isinstance(m.right, ast.Constant) and m.right.value == 1000):
+            return False
+        c = m.left
+        return isinstance(c, ast.Call) and not c.args and not c.keywords and isinstance(c.func, ast.Attribute) \
+            and c.func.attr == "time" and isinstance(c.func.value, ast.Name) and c.func.value.id == "time"
+
+    @staticmethod
+    def crc_return(w):
+        """struct.pack('>I', c) + X  ->  (c, X) or None"""
+        if not (isinstance(w, ast.BinOp) and isinstance(w.op, ast.Add) and isinstance(w.right, ast.Name)):
+            return None
+        p = w.left
+        if isinstance(p, ast.Call) and isinstance(p.func, ast.Attribute) and p.func.attr == "pack" and isinstance(p.func.value, ast.Name) \
+                and p.func.value.id == "struct" and len(p.args) == 2 and isinstance(p.args[0], ast.Constant) and p.args[0].value == ">I" \
+                and isinstance(p.args[1], ast.Name) and not p.keywords:
+            return p.args[1].id, w.right.id
+        return None
+
+    def crc_of_acc(self, s1, s2):
+        """crc = zlib.crc32(ACC) & 0xFFFFFFFF ; ACC = struct.pack('>I', crc) + ACC"""
+        if not (self.acc and self.acc[1] == "bytes"):
+            return False
+        a = self.acc[0]
+        if not (isinstance(s1, ast.Assign) and len(s1.targets) == 1 and isinstance(s1.targets[0], ast.Name)):
+            return False
+        c, v = s1.targets[0].id, s1.value
+        if not (isinstance(v, ast.BinOp) and isinstance(v.op, ast.BitAnd) and isinstance(v.right, ast.Constant) and v.right.value == 0xFFFFFFFF):
+            return False
+        k = v.left
+        if not (isinstance(k, ast.Call) and isinstance(k.func, ast.Attribute) and k.func.attr == "crc32" and isinstance(k.func.value, ast.Name)
+                and k.func.value.id == "zlib" and len(k.args) == 1 and isinstance(k.args[0], ast.Name) and k.args[0].id == a and not k.keywords):
+            return False
+        if isinstance(s2, ast.Assign) and len(s2.targets) == 1 and isinstance(s2.targets[0], ast.Name) and s2.targets[0].id == a:
+            w = s2.value
+        elif isinstance(s2, ast.Return) and s2.value is not None:
+            w = s2.value
+        else:
+            return False
+        return self.crc_return(w) == (c, a)
+
+    def pure_choice(self, stmt, st):
+        """if <a >= C | a is None>: locals.. [else: locals..]  ->  updated env, or None when it is not of that form"""
+        t = stmt.test
+        cond = None
+        if isinstance(t, ast.Compare) and len(t.ops) == 1:
+            op, rhs = t.ops[0], t.comparators[0]
+            if isinstance(op, ast.GtE) and isinstance(rhs, ast.Constant) and isinstance(rhs.value, int) and not isinstance(rhs.value, bool):
+                cond = ("ge", rhs.value)
+            elif isinstance(op, ast.Is) and isinstance(rhs, ast.Constant) and rhs.value is None:
+                cond = ("none",)
+        if cond is None:
+            return None
+        for b in (stmt.body, stmt.orelse):
+            for s in b:
+                if not (isinstance(s, ast.Assign) and len(s.targets) == 1 and isinstance(s.targets[0], ast.Name)):
+                    return None
+                if self.looks_like_bytes(s.value) or self.is_now(s.value) or self.class_call(s.value, "_encode_message") \
+                        or self.class_call(s.value, "_encode_message_set"):
+                    return None
+                if self.acc and s.targets[0].id == self.acc[0]:
+                    return None
+        if not stmt.body:
+            return None
+        ce, _ = self.pure(t.left, st)
+        envs = []
+        for b in (stmt.body, stmt.orelse):
+            e2 = dict(st.env)
+            s2 = st.copy()
+            s2.env = e2
+            for s in b:
+                ex, kind = self.pure(s.value, s2)
+                e2[s.targets[0].id] = ("ex", ex, kind)
+            envs.append(e2)
+        new = dict(st.env)
+        for n in set(envs[0]) | set(envs[1]):
+            a, b = envs[0].get(n), envs[1].get(n)
+            if a == b:
+                continue
+            if a is None or b is None:
+                refuse(stmt, "local %r bound on one branch only" % n)
+            new[n] = ("ex", ("ifge", ce, cond[1], a[1], b[1]) if cond[0] == "ge" else ("ifnone", ce, a[1], b[1]), "any")
+        return new
 
     def emit(self, out, items):
         for it in items:
@@ -241,160 +382,217 @@ class Encoder:
             else:
                 out.append(it)
 
-    def msgset_call(self, st):
-        """x = KafkaCodec._encode_message_set(msgs, magic=m)  ->  (x, msgs expr, magic expr) or None"""
-        if not (isinstance(st, ast.Assign) and len(st.targets) == 1 and isinstance(st.targets[0], ast.Name)):
-            return None
-        v = st.value
-        if not (isinstance(v, ast.Call) and isinstance(v.func, ast.Attribute) and v.func.attr == "_encode_message_set"
-                and isinstance(v.func.value, ast.Name) and v.func.value.id in (self.class_name, self.self_name)):
-            return None
-        if len(v.args) != 1 or len(v.keywords) != 1 or v.keywords[0].arg != "magic":
-            refuse(st, "_encode_message_set call shape (offset given?)")
-        return st.targets[0].id, self.pure(v.args[0])[0], self.pure(v.keywords[0].value)[0]
+    # ---------------------------------------------------------------- statement lists
+    def seq(self, stmts, st, out, top):
+        """translate `stmts` along the path described by st, appending to `out`;
+        returns True when every way through them ends in return / raise"""
+        i = 0
+        while i < len(stmts):
+            stmt, rest = stmts[i], stmts[i + 1:]
+            i += 1
+            n0 = len(out)
+            try:
+                r = self.one(stmt, rest, st, out, top)
+            except UnboundUse as u:
+                if len(out) != n0:
+                    refuse(stmt, "name %s may be unbound after part of the statement was evaluated" % u)
+                out.append(("raise", "NameErr"))
+                self.notes.append("use of %s on a path that does not assign it: UnboundLocalError" % u)
+                return True
+            if r == "skip-next":
+                i += 1
+            elif r is not None:
+                return r
+        return False
 
-    def block(self, stmts, out, top):
-        for idx, st in enumerate(stmts):
-            ms = self.msgset_call(st)
-            if ms is not None:
-                # the rest of the block runs with the encoded set bound to a new level
-                self.no_pending(st)
-                name, msgs, magic = ms
+    def one(self, stmt, rest, st, out, top):
+        """-> None (go on) | "skip-next" | True/False (the rest was consumed; terminated?)"""
+        if isinstance(stmt, ast.Expr) and isinstance(stmt.value, ast.Constant) and isinstance(stmt.value.value, str):
+            return None
+        if isinstance(stmt, ast.Pass):
+            return None
+        if self.is_guard(stmt):
+            self.notes.append("guard dropped: " + ast.unparse(stmt).splitlines()[0][:80])
+            return None
+        if self.is_none_default(stmt):
+            self.notes.append("None default dropped: " + ast.unparse(stmt).splitlines()[0][:80])
+            return None
+        if isinstance(stmt, ast.Return):
+            if not top:
+                refuse(stmt, "return inside a loop")
+            if self.acc is not None:
+                if not st.started:
+                    refuse(stmt, "the returned name was never assigned")
+            elif stmt.value is not None:
+                self.emit(out, self.bytes_items(stmt.value, st))
+            else:
+                refuse(stmt, "bare return")
+            if st.pending:
+                refuse(stmt, "bytes local %r is computed but never appended" % st.pending[0])
+            if rest:
+                refuse(stmt, "statement after return")
+            return True
+        if isinstance(stmt, ast.Raise):
+            e = stmt.exc
+            name = e.func.id if isinstance(e, ast.Call) and isinstance(e.func, ast.Name) else (e.id if isinstance(e, ast.Name) else None)
+            if name not in RAISES or stmt.cause is not None:
+                refuse(stmt, "raise of " + str(name))
+            out.append(("raise", RAISES[name]))
+            return True
+        # ---- lets: the rest of the block is the body
+        if isinstance(stmt, ast.Assign) and len(stmt.targets) == 1 and isinstance(stmt.targets[0], ast.Name):
+            name, v = stmt.targets[0].id, stmt.value
+            let = None
+            if self.class_call(v, "_encode_message_set"):
+                if len(v.args) != 1 or len(v.keywords) != 1 or v.keywords[0].arg != "magic":
+                    refuse(stmt, "_encode_message_set call shape (offset given?)")
+                let = ("letms", self.pure(v.args[0], st)[0], self.pure(v.keywords[0].value, st)[0])
+            elif self.class_call(v, "_encode_message"):
+                if len(v.args) != 1 or v.keywords:
+                    refuse(stmt, "_encode_message call shape")
+                let = ("letmsg", self.pure(v.args[0], st)[0])
+            elif self.is_now(v):
+                let = ("letnow",)
+            if let is not None:
+                self.no_pending(stmt, st)
                 if name in self.params or (self.acc and name == self.acc[0]):
-                    refuse(st, "message set assigned to a parameter or the accumulator")
-                saved, lvl = dict(self.env), self.level
-                self.env[name] = ("ex", ("var", lvl), "any")
-                self.level = lvl + 1
+                    refuse(stmt, "let-bound value assigned to a parameter or the accumulator")
+                s2 = st.copy()
+                s2.env[name] = ("ex", ("var", st.level), "any")
+                s2.level = st.level + 1
                 body = []
-                self.block(stmts[idx + 1:], body, top)
-                self.level, self.env = lvl, saved
-                out.append(("letms", msgs, magic, body))
-                return
-            if self.done:
-                refuse(st, "statement after return")
-            if isinstance(st, ast.Expr) and isinstance(st.value, ast.Constant) and isinstance(st.value.value, str):
-                continue                                              # docstring
-            if isinstance(st, ast.Pass):
-                continue
-            if self.is_guard(st):
-                self.notes.append("guard dropped: " + ast.unparse(st).splitlines()[0][:80])
-                continue
-            if self.is_none_default(st):
-                self.notes.append("None default dropped: " + ast.unparse(st).splitlines()[0][:80])
-                continue
-            if isinstance(st, ast.Return):
-                if not top:
-                    refuse(st, "return inside a loop")
-                v = st.value
-                if self.acc is not None:
-                    if not self.acc_started:
-                        refuse(st, "the returned name was never assigned")
-                elif v is not None:
-                    self.emit(out, self.bytes_items(v))
+                term = self.seq(rest, s2, body, top)
+                out.append(let + (body,))
+                return term
+        # ---- checksum frame
+        if rest and self.crc_of_acc(stmt, rest[0]):
+            if not st.started or st.acc_out is not out:
+                refuse(stmt, "checksum of an accumulator started in another block")
+            self.no_pending(stmt, st)
+            inner = out[st.acc_idx:]
+            del out[st.acc_idx:]
+            out.append(("crc", inner))
+            if isinstance(rest[0], ast.Return):
+                if not top or rest[1:] or st.pending:
+                    refuse(stmt, "checksum return inside a loop / with statements after it")
+                return True
+            return "skip-next"
+        if isinstance(stmt, ast.AugAssign) and isinstance(stmt.op, ast.Add) and isinstance(stmt.target, ast.Name) \
+                and self.acc and stmt.target.id == self.acc[0] and st.started:
+            if self.acc[1] == "bytes":
+                self.emit(out, self.bytes_items(stmt.value, st))
+            elif isinstance(stmt.value, (ast.List, ast.Tuple)):
+                for x in stmt.value.elts:
+                    self.emit(out, self.bytes_items(x, st))
+            else:
+                refuse(stmt, "+= on the list accumulator")
+            return None
+        if isinstance(stmt, ast.Expr) and isinstance(stmt.value, ast.Call) and isinstance(stmt.value.func, ast.Attribute) \
+                and isinstance(stmt.value.func.value, ast.Name) and self.acc and stmt.value.func.value.id == self.acc[0] \
+                and self.acc[1] == "list" and st.started and not stmt.value.keywords and len(stmt.value.args) == 1:
+            if stmt.value.func.attr == "append":
+                self.emit(out, self.bytes_items(stmt.value.args[0], st))
+                return None
+            if stmt.value.func.attr == "extend" and isinstance(stmt.value.args[0], (ast.List, ast.Tuple)):
+                for x in stmt.value.args[0].elts:
+                    self.emit(out, self.bytes_items(x, st))
+                return None
+        if isinstance(stmt, ast.Assign) and len(stmt.targets) == 1 and isinstance(stmt.targets[0], ast.Name):
+            name, v = stmt.targets[0].id, stmt.value
+            if self.acc and name == self.acc[0]:
+                if st.started:
+                    refuse(stmt, "accumulator assigned twice")
+                st.started, st.acc_out, st.acc_idx = True, out, len(out)
+                if self.acc[1] == "list":
+                    if not isinstance(v, (ast.List, ast.Tuple)):
+                        refuse(stmt, "list accumulator not started with a list display")
+                    for x in v.elts:
+                        self.emit(out, self.bytes_items(x, st))
                 else:
-                    refuse(st, "bare return")
-                if self.pending:
-                    refuse(st, "bytes local %r is computed but never appended" % self.pending[0])
-                self.done = True
-                continue
-            if isinstance(st, ast.AugAssign) and isinstance(st.op, ast.Add) and isinstance(st.target, ast.Name) \
-                    and self.acc and st.target.id == self.acc[0] and self.acc_started:
-                if self.acc[1] == "bytes":
-                    self.emit(out, self.bytes_items(st.value))
-                elif isinstance(st.value, (ast.List, ast.Tuple)):
-                    for x in st.value.elts:
-                        self.emit(out, self.bytes_items(x))
-                else:
-                    refuse(st, "+= on the list accumulator")
-                continue
-            if isinstance(st, ast.Expr) and isinstance(st.value, ast.Call) and isinstance(st.value.func, ast.Attribute) \
-                    and isinstance(st.value.func.value, ast.Name) and self.acc and st.value.func.value.id == self.acc[0] \
-                    and self.acc[1] == "list" and self.acc_started and not st.value.keywords and len(st.value.args) == 1:
-                if st.value.func.attr == "append":
-                    self.emit(out, self.bytes_items(st.value.args[0]))
-                    continue
-                if st.value.func.attr == "extend" and isinstance(st.value.args[0], (ast.List, ast.Tuple)):
-                    for x in st.value.args[0].elts:
-                        self.emit(out, self.bytes_items(x))
-                    continue
-            if isinstance(st, ast.Assign) and len(st.targets) == 1 and isinstance(st.targets[0], ast.Name):
-                name, v = st.targets[0].id, st.value
+                    self.emit(out, self.bytes_items(v, st))
+                return None
+            if name in st.env and st.env[name][0] == "bytes":
+                refuse(stmt, "bytes local assigned twice")
+            if self.looks_like_bytes(v):
                 if name in self.params:
-                    refuse(st, "parameter reassigned")
-                if self.acc and name == self.acc[0]:
-                    if self.acc_started or not top:
-                        refuse(st, "accumulator assigned twice or inside a loop")
-                    self.acc_started = True
-                    if self.acc[1] == "list":
-                        if not isinstance(v, (ast.List, ast.Tuple)):
-                            refuse(st, "list accumulator not started with a list display")
-                        for x in v.elts:
-                            self.emit(out, self.bytes_items(x))
-                    else:
-                        self.emit(out, self.bytes_items(v))
-                    continue
-                if name in self.env and self.env[name][0] == "bytes":
-                    refuse(st, "bytes local assigned twice")
-                if self.looks_like_bytes(v):
-                    if not top:
-                        refuse(st, "bytes local inside a loop")
-                    items = []
-                    self.emit(items, self.bytes_items(v))
-                    self.env[name] = ("bytes", items)
-                    self.pending.append(name)
-                    continue
-                ex, kind = self.pure(v)
-                self.env[name] = ("ex", ex, kind)
-                continue
-            if isinstance(st, ast.If) and isinstance(st.test, ast.Compare) and len(st.test.ops) == 1 \
-                    and isinstance(st.test.ops[0], ast.GtE) and isinstance(st.test.comparators[0], ast.Constant) \
-                    and isinstance(st.test.comparators[0].value, int):
-                a, b = self.branch_assigns(st.body), self.branch_assigns(st.orelse)
-                if a is None or b is None or set(a) != set(b) or not a:
-                    refuse(st, "if/else that is not a pure choice of locals")
-                cond, _ = self.pure(st.test.left)
-                c = st.test.comparators[0].value
-                new = {}
-                for n in a:
-                    if n in self.params or (self.acc and n == self.acc[0]):
-                        refuse(st, "if/else assigns a parameter or the accumulator")
-                    new[n] = ("ex", ("ifge", cond, c, self.pure(a[n])[0], self.pure(b[n])[0]), "any")
-                self.env.update(new)
-                continue
-            if isinstance(st, ast.For) and not st.orelse:
-                it = st.iter
-                saved = dict(self.env)
-                lvl = self.level
-                if isinstance(it, ast.Call) and isinstance(it.func, ast.Attribute) and it.func.attr == "items" \
-                        and not it.args and not it.keywords:
-                    coll, _k = self.pure(it.func.value)
-                    if not (isinstance(st.target, ast.Tuple) and len(st.target.elts) == 2
-                            and all(isinstance(t, ast.Name) for t in st.target.elts)):
-                        refuse(st, "target of a loop over .items()")
-                    k, v = st.target.elts
-                    self.env[k.id] = ("ex", ("idx", ("var", lvl), 0), "any")
-                    self.env[v.id] = ("ex", ("idx", ("var", lvl), 1), "dict")      # values of the grouped dict are dicts
-                else:
-                    coll, kind = self.pure(it)
-                    if not isinstance(st.target, ast.Name):
-                        refuse(st, "loop target")
-                    if kind == "dict":
-                        coll = ("keys", coll)
-                    self.env[st.target.id] = ("ex", ("var", lvl), "any")
-                self.level = lvl + 1
-                body = []
-                self.block(st.body, body, False)
-                self.level = lvl
-                self.env = saved
-                out.append(("for", coll, body))
-                continue
-            refuse(st, "statement " + type(st).__name__ + ": " + ast.unparse(st).splitlines()[0][:60])
+                    refuse(stmt, "bytes local over a parameter")
+                items = []
+                self.emit(items, self.bytes_items(v, st))
+                st.env[name] = ("bytes", items)
+                st.pending.append(name)
+                return None
+            ex, kind = self.pure(v, st)
+            st.env[name] = ("ex", ex, kind)
+            return None
+        if isinstance(stmt, ast.If):
+            new = self.pure_choice(stmt, st)
+            if new is not None:
+                st.env = new
+                return None
+            cond, swapped = self.test(stmt.test, st)
+            a, b = (stmt.orelse, stmt.body) if swapped else (stmt.body, stmt.orelse)
+            th, el = [], []
+            t1 = self.seq(list(a) + list(rest), st.copy(), th, top)
+            t2 = self.seq(list(b) + list(rest), st.copy(), el, top)
+            out.append(("cond", cond, th, el))
+            return t1 and t2
+        if isinstance(stmt, ast.For) and not stmt.orelse:
+            return self.loop(stmt, st, out)
+        refuse(stmt, "statement " + type(stmt).__name__ + ": " + ast.unparse(stmt).splitlines()[0][:60])
+
+    def loop(self, stmt, st, out):
+        self.no_pending(stmt, st)
+        it = stmt.iter
+        body_stmts = list(stmt.body)
+        lvl = st.level
+        s2 = st.copy()
+        # an induction variable:  v += <loop-invariant>  as the last statement of the body
+        ind = None
+        if body_stmts and isinstance(body_stmts[-1], ast.AugAssign) and isinstance(body_stmts[-1].op, ast.Add) \
+                and isinstance(body_stmts[-1].target, ast.Name):
+            v = body_stmts[-1].target.id
+            b = st.env.get(v)
+            if b is not None and b[0] == "ex" and not (self.acc and v == self.acc[0]):
+                for n in ast.walk(ast.Module(body=body_stmts[:-1], type_ignores=[])):
+                    if isinstance(n, (ast.Assign, ast.AugAssign)):
+                        tg = n.targets if isinstance(n, ast.Assign) else [n.target]
+                        if any(isinstance(m, ast.Name) and m.id == v for t in tg for m in ast.walk(t)):
+                            refuse(stmt, "induction variable %r assigned elsewhere in the loop" % v)
+                step, _ = self.pure(body_stmts[-1].value, st)        # evaluated in the state BEFORE the loop: invariant
+                ind = (v, b[1], step)
+                body_stmts = body_stmts[:-1]
+        if ind:
+            s2.env[ind[0]] = ("ex", ("add", ind[1], ("mul", ("var", lvl), ind[2])), "any")
+            elem_lvl, s2.level = lvl + 1, lvl + 2
+        else:
+            elem_lvl, s2.level = lvl, lvl + 1
+        if isinstance(it, ast.Call) and isinstance(it.func, ast.Attribute) and it.func.attr == "items" and not it.args and not it.keywords:
+            coll, _k = self.pure(it.func.value, st)
+            if not (isinstance(stmt.target, ast.Tuple) and len(stmt.target.elts) == 2 and all(isinstance(t, ast.Name) for t in stmt.target.elts)):
+                refuse(stmt, "target of a loop over .items()")
+            k, v = stmt.target.elts
+            s2.env[k.id] = ("ex", ("idx", ("var", elem_lvl), 0), "any")
+            s2.env[v.id] = ("ex", ("idx", ("var", elem_lvl), 1), "dict")      # values of the grouped dict are dicts
+        else:
+            coll, kind = self.pure(it, st)
+            if not isinstance(stmt.target, ast.Name):
+                refuse(stmt, "loop target")
+            if kind == "dict":
+                coll = ("keys", coll)
+            s2.env[stmt.target.id] = ("ex", ("var", elem_lvl), "any")
+        body = []
+        self.seq(body_stmts, s2, body, False)
+        if s2.pending:
+            refuse(stmt, "bytes local left pending in a loop body")
+        out.append(("foridx" if ind else "for", coll, body))
+        if ind:
+            del st.env[ind[0]]           # its final value is not expressible: any later use is refused
+        return None
 
     def translate(self):
         out = []
-        self.block(self.fn.body, out, True)
-        if not self.done:
-            refuse(self.fn, "function does not end with return")
+        if not self.seq(list(self.fn.body), self.st0, out, True):
+            refuse(self.fn, "a path through the function does not end with return / raise")
         return out
 
 
@@ -421,7 +619,19 @@ def p_ex(e):
         return "EKeys (%s)" % p_ex(e[1])
     if k == "ifge":
         return "EIfGe (%s) %s (%s) (%s)" % (p_ex(e[1]), zlit(e[2]), p_ex(e[3]), p_ex(e[4]))
+    if k == "ifnone":
+        return "EIfNone (%s) (%s) (%s)" % (p_ex(e[1]), p_ex(e[2]), p_ex(e[3]))
+    if k == "add":
+        return "EAdd (%s) (%s)" % (p_ex(e[1]), p_ex(e[2]))
+    if k == "mul":
+        return "EMul (%s) (%s)" % (p_ex(e[1]), p_ex(e[2]))
     raise ValueError(k)
+
+
+def p_cond(c):
+    if c[0] == "ceq":
+        return "CEq (%s) %s" % (p_ex(c[1]), zlit(c[2]))
+    return "CIsNone (%s)" % p_ex(c[1])
 
 
 def p_item(it, ind):
@@ -436,8 +646,20 @@ def p_item(it, ind):
         return "%s (%s)" % ({"ascii": "IAscii", "text": "IText", "sbytes": "IShortBytes", "istring": "IIntString", "raw": "IRaw"}[k], p_ex(it[1]))
     if k == "for":
         return "IFor (%s)\n%s" % (p_ex(it[1]), p_prog(it[2], ind + 2))
+    if k == "foridx":
+        return "IForIdx (%s)\n%s" % (p_ex(it[1]), p_prog(it[2], ind + 2))
     if k == "letms":
         return "ILetMsgSet (%s) (%s)\n%s" % (p_ex(it[1]), p_ex(it[2]), p_prog(it[3], ind + 2))
+    if k == "letmsg":
+        return "ILetMessage (%s)\n%s" % (p_ex(it[1]), p_prog(it[2], ind + 2))
+    if k == "letnow":
+        return "ILetNow\n%s" % p_prog(it[1], ind + 2)
+    if k == "crc":
+        return "ICrc\n%s" % p_prog(it[1], ind + 2)
+    if k == "raise":
+        return "IRaise %s" % it[1]
+    if k == "cond":
+        return "ICond (%s)\n%s\n%s" % (p_cond(it[1]), p_prog(it[2], ind + 2), p_prog(it[3], ind + 2))
     raise ValueError(k)
 
 
@@ -453,7 +675,8 @@ ENCODERS = ["_encode_message_header", "encode_api_versions_request", "encode_met
             "encode_consumermetadata_request", "encode_heartbeat_request", "encode_leave_group_request",
             "encode_join_group_request", "encode_sync_group_request", "encode_join_group_protocol_metadata",
             "encode_sync_group_member_assignment", "encode_offset_request", "encode_offset_fetch_request",
-            "encode_offset_commit_request", "encode_fetch_request", "encode_produce_request"]
+            "encode_offset_commit_request", "encode_fetch_request", "encode_produce_request",
+            "_encode_message_set", "_encode_message"]
 
 
 def translate_source(text):
